@@ -9,6 +9,8 @@ F6  no trapping arithmetic on numbers taken from tokens
 F7  a parser function that fails has reported an error; Ok results only without recorded errors
 F8  the literal parser only parses literal children when asked to
 F10 AST-chosen indices in the type checker are compared with the length before they are used
+F11 cross-reference: forward const references, unknown / non-usize array-size consts and non-numeric const arithmetic are rejected by the
+    checker (C17 T9 / T10 / T11); otherwise compile() panics on such text
 """
 from .. import eof, mir, protocol
 from ..core import AnchorMissing, Finding, RuleResult
@@ -626,6 +628,21 @@ def rule_f10(ctx):
     return res
 
 
+def rule_f11(ctx):
+    """Cross-reference: programs the compiler cannot lower are rejected by the checker (C17 T9 / T10 / T11), else compile() panics on text input."""
+    from . import C17
+    res = RuleResult("F11", "consts and array sizes the compiler cannot resolve are rejected by the checker (cross-reference to C17 T9 / T10 / T11)")
+    ok = True
+    for fn in (C17.rule_t9, C17.rule_t10, C17.rule_t11):
+        r = fn(ctx)
+        for x in r.findings:
+            res.bad(Finding("F11", x.fn, x.site, x.message, x.span))
+            ok = False
+    if ok:
+        res.ok({"verdict": "C17 T9 / T10 / T11 hold"})
+    return res
+
+
 def run(ctx):
     out = []
 
@@ -635,7 +652,7 @@ def run(ctx):
             return r
         g.__name__ = fn.__name__
         return g
-    results = ctx.run_rules([rule_f1_f2, rule_f3, rule_f4_f5, rule_f6, rule_f7, rule_f8, rule_f10])
+    results = ctx.run_rules([rule_f1_f2, rule_f3, rule_f4_f5, rule_f6, rule_f7, rule_f8, rule_f10, rule_f11])
     for r in results:
         if isinstance(r, list):
             out.extend(r)
